@@ -405,3 +405,7 @@ impl CodeGen for UnassignedTableGen {
         file_writer::generate_code_from_vec(file, &self.name, &self.vec)
     }
 }
+
+// Verification hook (see /verif/DESIGN.md): compiled only by `cargo kani` or with `--cfg precis_verif`.
+#[cfg(any(kani, precis_verif))]
+include!(concat!(env!("PRECIS_VERIF_DIR"), "/kani/incrate/tools.rs"));
